@@ -8,7 +8,55 @@ NOTE = ("Trusted: Lean 4.33 kernel (axioms propext, Classical.choice, Quot.sound
         "native_decide/bv_decide); Mathlib definitions; the Python translator that regenerates Gen/*.lean from "
         "/repo on every run; the Python correspondence harness. ")
 
+PROOF_DECAY = ("Lean 4 proof (Mathlib real analysis: ODE + uniqueness / FTC) over matrices whose identities are kernel-checked on "
+               "data regenerated from the files + per-input comparison with a verified interval oracle")
+
 CHECKS = {
+    "C01": dict(
+        text="Theorem C01_exact: for every initial inventory and real time the closed form the library evaluates, with the "
+             "shipped exact matrices (kernel-checked C*C^-1=1 and L*C=C*diag(-lambda) on data regenerated from the files), "
+             "satisfies the decay ODE system + initial condition and is its unique solution. The 1e-11 double-precision bound, "
+             "nuclide set/order, finiteness and zero activity of stable nuclides are checked per generated input against the "
+             "verified rational interval oracle (decayFactor_sound), not proved (named _partial in the evidence).",
+        ref="§4 C01", technique=PROOF_DECAY,
+        note=NOTE + "IEEE-754 behaviour of NumPy/SciPy assumed; forward-error bound is per-input, not a theorem; shipped dataset only."),
+    "C02": dict(
+        text="Theorem C02_symbolic (ODE + initial condition hold identically in t, uniqueness) for the exact data; symbolic-t "
+             "results of the real InventoryHP compared coefficient-by-coefficient as exact rationals with the model, exponents to "
+             "315 digits; numeric results within 1e-13 relative of the verified oracle at adaptive precision. The 'however small' "
+             "clause is false on the shipped code (open known finding F6) and reported as KNOWN-FINDING.",
+        ref="§4 C02", technique=PROOF_DECAY,
+        note=NOTE + "SymPy/mpmath rounding assumed correct; nsimplify's reading taken as the exact input."),
+    "C03": dict(
+        text="Theorems C03_integral (cumulative decays = integral of activity), C03_atom_balance, C03_stable for the shipped "
+             "dataset, all N(0), all t; real cumulative_decays of both classes compared with the verified oracle, keys = radioactive "
+             "closure, atom balance recomputed from real outputs.",
+        ref="§4 C03", technique=PROOF_DECAY, note=NOTE + "Rounding bounds per input, not proved."),
+    "C04": dict(
+        text="Every statement of the property is a kernel-evaluated decision (decide +kernel, no axioms beyond the standard three) "
+             "over Lean data regenerated from every shipped file on every run: exact inverses and diagonalisation (lifted to real "
+             "matrices by proved soundness lemmas), rates = listed half-lives, acyclic parents-first graph, branching fractions, decay "
+             "modes vs dZ/dA, ancestor patterns, float-vs-exact entry and aggregated bounds, decay constants vs r*ln2 (certified "
+             "ln2 enclosure), masses incl. three algebraic ones by integer-power certificates, identical pickle generations; plus "
+             "loaded-vs-file comparison and the generation switch.",
+        ref="§4 C04", technique="Lean 4 kernel decision procedures over translator-regenerated data + soundness proofs",
+        note=NOTE + "Translator (numpy.load, stub unpickler) trusted to render the files; decimal reading = shortest repr."),
+    "C05": dict(
+        text="Generated unit tables decided equal to the specification (exact tables) / within 2^-52 (float tables), kinds disjoint, "
+             "Avogadro; round-trip, ratio law and activity/mole/mass ties proved for all amounts/units/nuclides over the rationals; "
+             "real code compared with the exact model for nuclides x 43 units x entry points (8 ulp), HP class exactly.",
+        ref="§4 C05", technique="Lean 4 proof (field identities) + decide on generated tables + exhaustive correspondence",
+        note=NOTE + "'A few ulp' for the float class is per input."),
+    "C06": dict(
+        text="27-entry time tables decided equal to the specification in both modes, year units, unknown units refused (theorem for "
+             "all strings), conversions compose, exact halving identity; real converters vs model for all unit pairs, decay/"
+             "cumulative/time-series with (t,u) vs equivalent seconds, half-life queries in all units, halving to 8 ulp.",
+        ref="§4 C06", technique="Lean 4 proof + decide on generated tables + exhaustive correspondence",
+        note=NOTE + "Float halving per input."),
+    "C07": dict(
+        text="flow_add, flow_zero, flow_linear, flow_split, companions proved for the shipped dataset over the reals; real "
+             "chained/split/linear/companion decays of both classes compared with each other and with the verified oracle.",
+        ref="§4 C07", technique=PROOF_DECAY, note=NOTE + "Float/HP deviations per input."),
     "C09": dict(
         text="All-forms / fixed-point / idempotence / id round-trip / attribute theorems proved in Lean over every "
              "element of the generated table, every digit string and every state (structural, not enumerated); the "
@@ -25,6 +73,12 @@ CHECKS = {
              "strata and an entry-point matrix compared with the model and judged by the property's own oracle.",
         ref="§4 C10", technique="Lean 4 proof (case analysis of an executable model with Python's exception classes) + exhaustive/seeded correspondence",
         note=NOTE + "Amount/unit/key classes are abstracted by the harness (classification trusted); non-ASCII strings judged by the oracle only; bool/complex/Decimal amounts not judged."),
+    "C14": dict(
+        text="frac_def, frac_sum_one, frac_in_unit_interval, frac_scale_invariant proved over the rationals for all lists; real "
+             "fractions of both classes compared with the model's exact quotient of the actual read-outs ((n+4) ulp), scale/unit "
+             "invariance and class agreement on generated inventories.",
+        ref="§4 C14", technique="Lean 4 proof (ordered-field algebra) + correspondence",
+        note=NOTE + "Float rounding per input."),
 }
 
 PENDING = {}
